@@ -87,3 +87,102 @@ Proof.
   - destruct S as (_&_&_&In&_). exists s. split; [reflexivity|]. split; [auto|apply (i_nodup _ I)].
   - destruct S as (_&E). rewrite E in H. destruct H.
 Qed.
+
+(* ------------------------------------------------------------------ C06: Succeeded is exclusive and backed by an objective value *)
+
+Theorem trials_good c acts t :
+  valid_cfg c -> no_teardown acts -> In t (w_trials (run c acts)) -> tgood t.
+Proof.
+  intros V NT I. destruct (Inv_reachable c acts V NT) as [Iv _]. pose proof (i_tgood _ Iv) as G.
+  rewrite Forall_forall in G. auto.
+Qed.
+
+(* ------------------------------------------------------------------ C03: a settled verdict is not touched *)
+
+Lemma apply_write_exp w wr w1 e :
+  apply_write w wr = Some w1 -> w_exp w = Some e -> e_deleting e = false ->
+  exists e1, w_exp w1 = Some e1 /\ e_max e1 = e_max e /\
+    (e_st e1 = e_st e \/ exists st rv, wr = WExpStatus st rv /\ rv = e_rv e /\ e_st e1 = st).
+Proof.
+  intros A He De. destruct wr; cbn [apply_write] in A; rewrite ?He in A.
+  - destruct (Nat.eqb (e_rv e) rv); [|discriminate]. rewrite De, andb_false_r in A. inversion A; subst. cbn. eexists. split; [reflexivity|]. cbn. auto.
+  - destruct (Nat.eqb (e_rv e) rv) eqn:Er; [|discriminate]. apply Nat.eqb_eq in Er. inversion A; subst. cbn. eexists. split; [reflexivity|]. cbn.
+    split; [reflexivity|]. right. eauto.
+  - destruct (w_sug w); [discriminate|]. inversion A; subst. cbn. eauto.
+  - destruct (w_sug w) as [s|]; [|discriminate]. destruct (Nat.eqb (s_rv s) rv); [|discriminate]. inversion A; subst. cbn. eauto.
+  - destruct (w_sug w) as [s|]; [|discriminate]. destruct (Nat.eqb (s_rv s) rv); [|discriminate]. inversion A; subst. cbn. eauto.
+  - destruct (find_trial name (w_trials w)); [discriminate|]. inversion A; subst. cbn. eauto.
+  - destruct (find_trial name (w_trials w)) as [t|]; [|discriminate]. destruct (Nat.eqb (t_rv t) rv); [|discriminate].
+    destruct (negb add && t_deleting t); inversion A; subst; cbn; eauto.
+  - destruct (find_trial name (w_trials w)) as [t|]; [|discriminate]. destruct (Nat.eqb (t_rv t) rv); [|discriminate]. inversion A; subst. cbn. eauto.
+  - destruct (find_job name (w_jobs w)); [discriminate|]. inversion A; subst. cbn. eauto.
+  - destruct (find_job name (w_jobs w)); [|discriminate]. inversion A; subst. cbn. eauto.
+  - destruct (infra_has (w_infra w) k); [discriminate|]. inversion A; subst. cbn. eauto.
+  - destruct (infra_has (w_infra w) k); [|discriminate]. inversion A; subst. cbn. eauto.
+  - inversion A; subst. cbn. eauto.
+  - inversion A; subst. cbn. eauto.
+  - discriminate.
+Qed.
+
+Theorem verdict_stable_step w a e :
+  Inv w -> is_teardown a = false -> w_exp w = Some e ->
+  e_completed (e_st e) = true -> restart_enabled_e (w_cfg w) e = false ->
+  exists e', w_exp (step w a) = Some e' /\ verdict_same (e_st e) (e_st e').
+Proof.
+  intros [I P] NT He C R.
+  assert (Same : forall w', w_exp w' = Some e -> exists e', w_exp w' = Some e' /\ verdict_same (e_st e) (e_st e')).
+  { intros w' H. exists e. split; [exact H|apply verdict_same_refl]. }
+  destruct a; try discriminate; cbn [step].
+  - destruct (pending_of w c); [|auto]. destruct c; [| destruct (plan_sug w resp) |]; apply Same; exact He.
+  - destruct (pending_of w c) as [|[wr onf] rest] eqn:Ep; [auto|].
+    destruct (if inject_failure then None else apply_write (count_write w) wr) as [w1|] eqn:A; [|apply Same; destruct c; exact He].
+    destruct inject_failure; [discriminate|].
+    pose proof (pending_of_ok w c P) as Pc. rewrite Ep in Pc. inversion Pc as [|? ? OK _]; subst.
+    destruct (inv_exp_some _ I) as (e0&He0&De&_). rewrite He in He0. inversion He0; subst e0.
+    assert (He' : w_exp (count_write w) = Some e) by exact He.
+    destruct (apply_write_exp _ _ _ _ A He' De) as (e1&He1&M1&[S|(st&rv&->&Rv&S)]).
+    + exists e1. split; [destruct c; exact He1|]. rewrite S. apply verdict_same_refl.
+    + exists e1. split; [destruct c; exact He1|]. rewrite S.
+      unfold write_ok in OK. cbn [fst] in OK. destruct OK as (_&e2&He2&_&K). rewrite He in He2. inversion He2; subst e2. auto.
+  - apply Same. destruct c; exact He.
+  - apply Same. exact He.
+  - destruct (find_trial t (w_trials w)), (db_get t (w_db w)); apply Same; exact He.
+  - destruct (find_trial t (w_trials w)) as [tr|]; [|auto].
+    destruct (c_es (w_cfg w) && t_is tr TCreated && negb (t_completed tr) && negb (t_deleting tr)); [|auto].
+    apply Same. cbn. destruct v, (db_get t (w_db w)); exact He.
+  - destruct (i_dep (w_infra w)); apply Same; exact He.
+  - apply Same; exact He.
+  - apply Same; exact He.
+  - apply Same; exact He.
+  - rewrite He. destruct (e_max e) as [m|]; [|auto].
+    destruct (_ && _ && _); [|auto]. cbn. eexists. split; [reflexivity|]. cbn. apply verdict_same_refl.
+Qed.
+
+Lemma verdict_same_trans a b c : verdict_same a b -> verdict_same b c -> verdict_same a c.
+Proof. intros (A1&A2&A3&A4) (B1&B2&B3&B4). repeat split; congruence. Qed.
+
+Lemma verdict_same_completed a b : verdict_same a b -> e_completed a = true -> e_completed b = true.
+Proof.
+  intros (S&F&_&_). unfold e_completed, e_is, has_cond. now rewrite S, F.
+Qed.
+
+(* over runs: the verdict, its reason and the completion time stay as they are for as long as no restart is enabled *)
+Theorem verdict_stable_run c acts1 acts2 e :
+  valid_cfg c -> no_teardown (acts1 ++ acts2) -> w_exp (run c acts1) = Some e -> e_completed (e_st e) = true ->
+  (forall pre post e1, acts2 = pre ++ post -> w_exp (run c (acts1 ++ pre)) = Some e1 -> restart_enabled_e c e1 = false) ->
+  exists e', w_exp (run c (acts1 ++ acts2)) = Some e' /\ verdict_same (e_st e) (e_st e').
+Proof.
+  intros V NT. revert acts1 e NT. induction acts2 as [|a l IH]; intros acts1 e NT He C Dis.
+  - rewrite app_nil_r. exists e. split; [exact He|apply verdict_same_refl].
+  - pose proof NT as NT0. apply no_teardown_app in NT as [N1 N2]. apply no_teardown_cons in N2 as [Na N2].
+    pose proof (Inv_reachable c acts1 V N1) as Iv.
+    assert (R0 : restart_enabled_e (w_cfg (run c acts1)) e = false).
+    { unfold run. rewrite run_cfg. cbn. apply (Dis [] (a :: l) e eq_refl). now rewrite app_nil_r. }
+    destruct (verdict_stable_step _ a e Iv Na He C R0) as (e1&He1&S1).
+    assert (Hrun : run c (acts1 ++ [a]) = step (run c acts1) a) by (unfold run; now rewrite fold_left_app).
+    replace (acts1 ++ a :: l) with ((acts1 ++ [a]) ++ l) in * by (now rewrite <- app_assoc).
+    rewrite <- Hrun in He1.
+    destruct (IH (acts1 ++ [a]) e1 NT0 He1 (verdict_same_completed _ _ S1 C)) as (e2&He2&S2).
+    + intros pre post e3 El H3. apply (Dis (a :: pre) post e3); [now rewrite El|]. now rewrite <- app_assoc in H3.
+    + exists e2. split; [exact He2|eapply verdict_same_trans; eauto].
+Qed.
